@@ -466,3 +466,121 @@ def alarm_set_union_op(src):
     s = {1} | {src}
     for x in s:
         x.width = 1
+
+
+def alarm_slice_assignment(src):
+    xs = [deepcopy(src)]
+    xs[:] = [src]
+    xs[0].width = 1
+
+
+def ok_slice_assignment(src):
+    ys = [(1, src)]
+    xs = []
+    xs[:] = [(a, deepcopy(b)) for a, b in ys]
+    for a, b in xs:
+        b.width = 1
+
+
+def alarm_source_values(src):
+    for g in src.values():
+        g.width = 1
+
+
+def alarm_source_items(src):
+    for k, g in src.items():
+        g.width = 1
+
+
+def alarm_source_layers_values(src):
+    for g in src.layers["x"].values():
+        g.width = 1
+
+
+def alarm_source_get(src):
+    src.get("a").width = 1
+
+
+def alarm_source_method_result_elements(src):
+    for g in src.getGlyphs():
+        g.width = 1
+
+
+def ok_dict_keys_are_not_values(src):
+    d = {"a": src}
+    for k in d.keys():
+        k.width = 1
+
+
+def ok_iterating_dict_yields_keys(src):
+    d = {"a": src}
+    for k in d:
+        k.width = 1
+    for k in sorted(d):
+        k.width = 1
+
+
+def alarm_iterating_list(src):
+    d = [src]
+    for k in d:
+        k.width = 1
+
+
+def alarm_iterating_unknown_container(src):
+    d = deepcopy({"a": 1})
+    d["b"] = src
+    for v in d.values():
+        v.width = 1
+
+
+def alarm_object_keys_display(src):
+    d = {src: 1}
+    for k in d:
+        k.width = 1
+
+
+def alarm_object_keys_store(src):
+    d = {}
+    d[src] = 1
+    for k in d.keys():
+        k.width = 1
+
+
+def alarm_object_keys_items(src):
+    d = {}
+    d.setdefault(src, []).append(1)
+    for k, v in d.items():
+        k.width = 1
+
+
+def alarm_object_keys_comprehension(src):
+    d = {g: 1 for g in src}
+    for k in sorted(d):
+        k.width = 1
+
+
+def alarm_object_keys_pairs(src):
+    d = dict((g, 1) for g in src)
+    for k in d:
+        k.width = 1
+
+
+def alarm_object_keys_counter(src):
+    from collections import Counter
+
+    c = Counter(src.glyphs)
+    for k in c:
+        k.width = 1
+
+
+def alarm_object_keys_update(src):
+    d = {}
+    d.update({src: 1})
+    for k in list(d):
+        k.width = 1
+
+
+def alarm_object_keys_copy(src):
+    d = dict({src: 1})
+    for k in d:
+        k.width = 1
